@@ -87,7 +87,7 @@ CLAIMS = {
   "ref": "DESIGN.md §4 C01"},
  "C04": {
   "technique": "Lean 4 proof (literal accepted iff its word fits the field; assemble succeeds iff every resolved statement fits; accepted words are never truncated; duplicate/undefined label and second .orig rejected) + three-way correspondence on boundary operands",
-  "text": "Proved: lit_range_iff (signed imm5/offset6/PC offsets, unsigned trap vector/.orig/.fill), expectLit_lit, accept_iff_fits, no_truncation, reject_is_diag, dup_label_rejected, undefined_label_rejected, second_orig_rejected. PARTIAL: accept_iff_wf at the text level is a stated Prop (same missing lexer/parse-loop link as C01). Correspondence: 19 forms × 14 boundary operands × 4 spellings × 2 origins, label distances at ±2^(n−1) and one beyond, label identity variants, .orig/trap sweeps, 12k random programs with wild operands — accept/reject and the image compared three ways.",
+  "text": "Proved: lit_range_iff (signed imm5/offset6/PC offsets, unsigned trap vector/.orig/.fill), expectLit_lit, accept_iff_fits, no_truncation, reject_is_diag, dup_label_rejected, undefined_label_rejected, second_orig_rejected. Text level, proved in full for the layout space of C01 (Layout.ok does not presuppose that operands fit, labels are defined once, a single .orig or ≤ 65,535 words): accept_iff_wf_render (a layout of an abstract program is accepted iff Prog.image is defined), accept_render_image (whatever is accepted is exactly the specified image: no truncation at the text level), reject_render, illFormed_spec (one witness per reject clause). Correspondence: 19 forms × 14 boundary operands × 4 spellings × 2 origins, label distances at ±2^(n−1) and one beyond, label identity variants, .orig/trap sweeps, 12k random programs with wild operands — accept/reject and the image compared three ways.",
   "note": "Trusted: Lean kernel; axioms propext, Classical.choice, Quot.sound; model validated by differential testing; I1 (a literal denotes a 16-bit word) fixes what 'fits' means.",
   "ref": "DESIGN.md §4 C04"},
  "C18": {
@@ -97,12 +97,12 @@ CLAIMS = {
   "ref": "DESIGN.md §4 C18"},
  "C15": {
   "technique": "Lean 4 proof (eval of every statement form at every PC = ISA semantics with label operands as absolute addresses; refusals are no-ops; PC changes only for jumps; eval never panics and exits only as the VM would) + three-way correspondence of real debugger sessions on real assembly sources",
-  "text": "Theorems eval_eq_isa_abs (every statement the statement parser can return, every PC / machine / world / symbol table / origin: refusal patterns, AsmLine::new(pc−orig), backpatch, emit, execute = the specification execAbs in which a label denotes orig+line−1; uses exhaustive 65,536-case field lemmas for the 9/10/11-bit PC-relative fields and C02's execute_eq_isa), eval_text_eq_spec, eval_ld_label, eval_st_label, eval_pc_only_jumps_holds, refused_noop, eval_refusals_noop, eval_never_ends_session_holds. PARTIAL: that the statement parser itself never panics on arbitrary text (parseSimple_no_panic) is stated, not proved (C05's invariant covers the whole-program parser only); that half is carried by the correspondence (11 kinds of malformed eval text per run). Tied to the code by ~5.6k sessions per run on real sources with origins 0x0000–0xFDFF, labels out of reach, every instruction form, off-limits forms, GETC/IN with and without input, compared three ways (implementation, model, specification from the generator's label table).",
+  "text": "Theorems eval_eq_isa_abs (every statement the statement parser can return, every PC / machine / world / symbol table / origin: refusal patterns, AsmLine::new(pc−orig), backpatch, emit, execute = the specification execAbs in which a label denotes orig+line−1; uses exhaustive 65,536-case field lemmas for the 9/10/11-bit PC-relative fields and C02's execute_eq_isa), eval_text_eq_spec, eval_ld_label, eval_st_label, eval_pc_only_jumps_holds, refused_noop, eval_refusals_noop, eval_never_ends_session_holds. parseSimple_no_panic_holds (the statement parser never panics on any text; with parseSimple_diag_inside and eval_text_total) closes the text side: every clause of the property is a proved theorem. Tied to the code by ~5.6k sessions per run on real sources with origins 0x0000–0xFDFF, labels out of reach, every instruction form, off-limits forms, GETC/IN with and without input, compared three ways (implementation, model, specification from the generator's label table).",
   "note": "Trusted: Lean kernel; axioms propext, Classical.choice, Quot.sound; hand-written model validated by differential testing; the link value of JSR/JSRR/CALL under eval is left open by the property and recorded as what lace does (current PC); eval's diagnostic text is collapsed to <evalmsg>.",
   "ref": "DESIGN.md §4 C15"},
  "C17": {
   "technique": "Lean 4 proof (statement span starts at the statement's own token; `assembly a` shows the statement that produced word a or nothing; label±offset resolves to orig+line−1+off computed in Z, for origins ≥ 0x8000 too) + three-way correspondence of `assembly`/`print`/`break`/`goto` on every address and label of real sources",
-  "text": "Proved: span_starts_at_statement_token, no_statement_no_text, statement_text, label_resolves, label_out_of_range, unknown_label, span_text_eq_statement_partial (if the spans the assembler reports equal the renderer's, the debugger shows the text the renderer wrote). PARTIAL: span_covers_operands, span_inside_source, multiword_share_span are stated as `def … : Prop` and carried by the correspondence only. Tied to the code by ~650 programs per run rendered under wild layouts (operand-less instructions after operand-ful ones, several statements per line, multi-word directives, multi-byte characters, origins ≥ 0x8000, user space ending inside the program, .break/.orig interleaved): `assembly a` for every a in [orig−2, orig+n+2] observed byte for byte, `print/assembly/break add/goto` on label±k, compared with the model (spans from the assembler model) and with the generator's own per-statement text and label table.",
+  "text": "Proved: span_starts_at_statement_token, no_statement_no_text, statement_text, label_resolves, label_out_of_range, unknown_label, span_text_eq_statement_partial (if the spans the assembler reports equal the renderer's, the debugger shows the text the renderer wrote). Also proved: span_covers_operands_holds, multiword_share_span_holds, span_inside_source_holds (every statement span of an assembled image lies on character boundaries inside the source, so `assembly a` never hits the slice panic: show_single_line_no_panic). The unconditional text-level round trip (render a program, slice at the span, get the statement's text back) is stated relative to a renderer that reports what it wrote, which is what the generator does on every run. Tied to the code by ~650 programs per run rendered under wild layouts (operand-less instructions after operand-ful ones, several statements per line, multi-word directives, multi-byte characters, origins ≥ 0x8000, user space ending inside the program, .break/.orig interleaved): `assembly a` for every a in [orig−2, orig+n+2] observed byte for byte, `print/assembly/break add/goto` on label±k, compared with the model (spans from the assembler model) and with the generator's own per-statement text and label table.",
   "note": "Trusted: Lean kernel; axioms propext, Classical.choice, Quot.sound; the generator records what it wrote per statement; minimal output mode; ESC characters in statement text are not generated.",
   "ref": "DESIGN.md §4 C17"},
 }
